@@ -1,15 +1,100 @@
 import PromModel.Tsdb.Intervals
 /-
-  Suite `intervals` (property C20, mechanism level).
-  ops:   `add <mint> <maxt>`    add an interval to the running set
-         `reset`                empty the set
-  out:   `ok <m1>:<M1>,<m2>:<M2>,…` (or `ok -`) | `panic`
+  Suite `intervals` (property C20, mechanism level): `tombstones.Intervals.Add`, `Interval.InBounds`,
+  `Interval.IsSubrange` and `tsdb.DeletedIterator` driven on a running interval set.
+  ops:   `add <mint> <maxt>`          add an interval to the running set
+         `reset`                      empty the set
+         `inb <mint> <maxt> <t>`      Interval{mint,maxt}.InBounds(t)
+         `sub <mint> <maxt>`          Interval{mint,maxt}.IsSubrange(running set)
+         `iter <seek|-> <t1,t2,…|->`  DeletedIterator over a chunk with samples at t1<t2<…, Intervals =
+                                      running set; optional Seek(seek) first, then Next() until ValNone
+  out:   `ok <m1>:<M1>,<m2>:<M2>,…` (or `ok -`) | `panic` | `true` | `false` | `ts <t…|->`
   After a panic the set is left unchanged (the harness does the same with a copy).
+  The string layer (parse/render) is thin; model and judge are defined on the structured `Op`/`Out`.
 -/
 namespace Prom.Intervals
 
-def render (xs : Intervals) : String :=
-  if xs.isEmpty then "ok -" else "ok " ++ ",".intercalate (xs.map fun x => s!"{x.mint}:{x.maxt}")
+inductive Op
+  | add (a b : Int)
+  | reset
+  | inb (a b t : Int)
+  | sub (a b : Int)
+  | iter (seek : Option Int) (ts : List Int)
+  | bad
+deriving Repr, DecidableEq
+
+inductive Out
+  | set (ys : Intervals)
+  | panic
+  | bool (b : Bool)
+  | ts (l : List Int)
+  | bad
+deriving Repr, DecidableEq
+
+/-! ### model -/
+
+def stepOp (st : Intervals) : Op → Intervals × Out
+  | .add a b =>
+    match add st ⟨a, b⟩ with
+    | .ok ys => (ys, .set ys)
+    | .error _ => (st, .panic)
+  | .reset => ([], .set [])
+  | .inb a b t => (st, .bool ((⟨a, b⟩ : Interval).inBounds t))
+  | .sub a b => (st, .bool ((⟨a, b⟩ : Interval).isSubrange st))
+  | .iter none ts => (st, .ts (drain ts st))
+  | .iter (some s) ts => (st, .ts (seekDrain s ts st))
+  | .bad => (st, .bad)
+
+def runOps (st : Intervals) : List Op → List Out
+  | [] => []
+  | op :: rest => (stepOp st op).2 :: runOps (stepOp st op).1 rest
+
+/-! ### the property statement as an oracle
+  Starting from the empty set, after every `add` of a valid interval the implementation's set must be
+  canonical and cover exactly the union of everything requested so far (checked on all interval
+  endpoints ±1), and must never panic; `IsSubrange` of a valid range must say whether the whole range
+  was requested for deletion; the iterator must return exactly the samples outside every requested
+  range (and at or after the seek position). `none` = no violation. -/
+
+def setStr (xs : Intervals) : String :=
+  if xs.isEmpty then "-" else ",".intercalate (xs.map fun x => s!"{x.mint}:{x.maxt}")
+
+def verdict (added : Intervals) (k : Nat) : List Op → List Out → Option String
+  | op :: ops, out :: outs =>
+    match op with
+    | .reset => verdict [] (k + 1) ops outs
+    | .add a b =>
+      if a > b then none -- invalid request: outside the statement, stop judging this case
+      else
+      match out with
+      | .panic => some (s!"violation add-panic op={k} mint={a} maxt={b}" ++ (if b = MaxI64 then " maxt=MaxInt64" else ""))
+      | .set ys =>
+        if !canonB ys then some s!"violation not-canonical op={k} set={setStr ys}"
+        else
+          match ((⟨a, b⟩ :: added) ++ ys).flatMap (fun x => [x.mint - 1, x.mint, x.maxt, x.maxt + 1]) |>.find?
+              (fun t => coversB ys t != coversB (⟨a, b⟩ :: added) t) with
+          | some t => some s!"violation coverage op={k} t={t} set={setStr ys}"
+          | none => verdict (⟨a, b⟩ :: added) (k + 1) ops outs
+      | _ => some s!"violation unparsable op={k}"
+    | .inb a b t =>
+      if out = .bool (decide (a ≤ t ∧ t ≤ b)) then verdict added (k + 1) ops outs
+      else some s!"violation inbounds op={k} mint={a} maxt={b} t={t}"
+    | .sub a b =>
+      if a > b then verdict added (k + 1) ops outs
+      else if out = .bool (rangeCoveredB added a b) then verdict added (k + 1) ops outs
+      else some s!"violation subrange op={k} mint={a} maxt={b} want={rangeCoveredB added a b}"
+    | .iter seek ts =>
+      if !decide (ts.Pairwise (· < ·)) then verdict added (k + 1) ops outs
+      else
+        let want := ts.filter fun t => (match seek with | some s => decide (s ≤ t) | none => true) && !coversB added t
+        if out = .ts want then verdict added (k + 1) ops outs
+        else some s!"violation iter op={k} want={showIntList want}"
+    | .bad => none
+  | _, _ => none
+
+/-! ### string layer -/
+
+def render (xs : Intervals) : String := "ok " ++ setStr xs
 
 def parseSet? (s : String) : Option Intervals :=
   if s = "-" then some [] else
@@ -18,59 +103,53 @@ def parseSet? (s : String) : Option Intervals :=
     | [a, b] => do pure ⟨← a.toInt?, ← b.toInt?⟩
     | _ => none
 
-def stepModel (st : Intervals) (line : String) : Intervals × String :=
+def parseOp (line : String) : Op :=
   match toks line with
   | ["add", a, b] =>
     match a.toInt?, b.toInt? with
-    | some a, some b =>
-      match add st ⟨a, b⟩ with
-      | .ok ys => (ys, render ys)
-      | .error _ => (st, "panic")
-    | _, _ => (st, "bad-op")
-  | ["reset"] => ([], "ok -")
-  | _ => (st, "bad-op")
+    | some a, some b => .add a b
+    | _, _ => .bad
+  | ["reset"] => .reset
+  | ["inb", a, b, t] =>
+    match a.toInt?, b.toInt?, t.toInt? with
+    | some a, some b, some t => .inb a b t
+    | _, _, _ => .bad
+  | ["sub", a, b] =>
+    match a.toInt?, b.toInt? with
+    | some a, some b => .sub a b
+    | _, _ => .bad
+  | ["iter", s, ts] =>
+    match parseIntList? ts with
+    | none => .bad
+    | some ts =>
+      if s = "-" then .iter none ts else
+      match s.toInt? with
+      | some s => .iter (some s) ts
+      | none => .bad
+  | _ => .bad
 
-def model (ops : List String) : List String :=
-  let rec go (st : Intervals) : List String → List String
-    | [] => []
-    | l :: rest => let (st', o) := stepModel st l; o :: go st' rest
-  go [] ops
+def renderOut : Out → String
+  | .set ys => render ys
+  | .panic => "panic"
+  | .bool b => if b then "true" else "false"
+  | .ts l => "ts " ++ showIntList l
+  | .bad => "bad-op"
 
-/--
-  Statement-as-oracle for the mechanism part of C20: starting from the empty set, after every
-  `add` of a valid interval the implementation's set must be canonical and cover exactly the
-  union of everything added so far (checked on all interval endpoints ±1), and must never panic.
--/
+def parseOut (s : String) : Out :=
+  match toks s with
+  | ["panic"] => .panic
+  | ["true"] => .bool true
+  | ["false"] => .bool false
+  | ["ok", s] => match parseSet? s with | some ys => .set ys | none => .bad
+  | ["ts", s] => match parseIntList? s with | some l => .ts l | none => .bad
+  | _ => .bad
+
+def model (ops : List String) : List String := (runOps [] (ops.map parseOp)).map renderOut
+
 def judge (ops outs : List String) : String :=
-  let rec go (added : Intervals) (ops outs : List String) (k : Nat) : String :=
-    match ops, outs with
-    | op :: ops, out :: outs =>
-      match toks op with
-      | ["reset"] => go [] ops outs (k + 1)
-      | ["add", a, b] =>
-        match a.toInt?, b.toInt? with
-        | some a, some b =>
-          if a > b then "ok" -- invalid request: outside the statement, stop judging this case
-          else
-          let added := ⟨a, b⟩ :: added
-          if out = "panic" then
-            s!"violation add-panic op={k} mint={a} maxt={b}" ++ (if b = MaxI64 then " maxt=MaxInt64" else "")
-          else match (toks out) with
-          | ["ok", s] =>
-            match parseSet? s with
-            | none => s!"violation unparsable op={k}"
-            | some ys =>
-              if !canonB ys then s!"violation not-canonical op={k} set={s}"
-              else
-                let pts := (added ++ ys).flatMap fun x => [x.mint - 1, x.mint, x.maxt, x.maxt + 1]
-                match pts.find? (fun t => coversB ys t != coversB added t) with
-                | some t => s!"violation coverage op={k} t={t} set={s}"
-                | none => go added ops outs (k + 1)
-          | _ => s!"violation unparsable op={k}"
-        | _, _ => "ok"
-      | _ => "ok"
-    | _, _ => "ok"
-  go [] ops outs 0
+  match verdict [] 0 (ops.map parseOp) (outs.map parseOut) with
+  | none => "ok"
+  | some v => v
 
 def suite : Suite := { name := "intervals", model := model, judge := judge }
 
